@@ -17,13 +17,15 @@ LEAN_DIR = os.path.join(VERIF, 'lean-parser')
 MODULE = 'XrlParser.Props.C07'
 NAMESPACE = 'XrlParser.C07'
 PROPS_FILE = os.path.join(LEAN_DIR, 'XrlParser', 'Props', 'C07.lean')
-WRAP = ['-Wl,--wrap=malloc,--wrap=calloc,--wrap=realloc,--wrap=free,--wrap=strdup,--wrap=strndup,--wrap=vasprintf']
+WRAP = ['-Wl,--wrap=malloc,--wrap=calloc,--wrap=realloc,--wrap=free,--wrap=strdup,--wrap=strndup,--wrap=vasprintf,--wrap=strtod']
 
 # known-finding sites (the file is matched by these exact keys)
 K_LOCALE = 'CompoundParser setlocale(LC_NUMERIC) xraylib-parser.c:338-344'
 K_WEIGHT = 'CompoundParser AtomicWeight(Z,NULL) failure ignored xraylib-parser.c:353-360'
 K_LEAK_ERR = 'CompoundParserSimple return 0 without free xraylib-parser.c:45-319'
 K_LEAK_GRP = 'CompoundParserSimple tempBracketAtoms not freed when ca is empty xraylib-parser.c:283-289'
+K_STRICT = 'CompoundParserSimple scanner skips characters xraylib-parser.c:66-110'
+K_RANGE = 'CompoundParserSimple strtod result not checked xraylib-parser.c:152-279'
 
 # theorems that must exist (and be axiom-clean) in Props/C07.lean, and the non-vacuity witnesses checked by name
 REQUIRED_THEOREMS = ['parse_print_counts', 'parse_print', 'parse_elements_ascending', 'parse_reorder', 'parse_expand_group',
@@ -31,7 +33,10 @@ REQUIRED_THEOREMS = ['parse_print_counts', 'parse_print', 'parse_elements_ascend
                      'parse_accepts_weightless', 'parse_rejects_full_fails', 'parse_rejects_full_fixed', 'parse_weightless_nan',
                      'locale_after_call', 'locale_restored_partial', 'locale_restored_full_fails', 'locale_restored_fixed',
                      'heap_balanced_full_fails', 'heap_leak_error_path', 'heap_leak_leading_group', 'heap_leak_count', 'heap_balanced_partial',
-                     'heap_balanced_fixed', 'add_compound_spec', 'symbol_lookup_agrees']
+                     'heap_balanced_fixed', 'add_compound_spec', 'symbol_lookup_agrees',
+                     'parse_rejects_unconvertible', 'parse_rejects_nonformula_full_fails', 'parse_rejects_nonformula_fixed',
+                     'parse_finite_full_fails', 'parse_finite_fixed', 'parse_rejects_out_of_range', 'parse_rejects_all_fixed',
+                     'oracle_recogniser_exact', 'parse_rejects_unreadable_fixed']
 
 SEEDS = ['H2O', 'Mg(OH)2', 'Fe2.5O', 'He', 'U', '(H)', 'Ca5(PO4)3F', 'C6H12O6', '(NH4)2SO4', 'K4(Fe(CN)6)', 'H.5O',
          'Al2(SO4)3', 'CuSO4(H2O)5', 'Rf', '((H2)3O)0.5', 'NaCl', 'Pb(C2H3O2)2', 'UO2(NO3)2(H2O)6', 'SiO2', 'La1.85Sr.15CuO4']
@@ -60,6 +65,9 @@ def parse_answer(line, numf):
             elif x.startswith('live='): d['live'] = tuple(int(v) for v in x[5:].split(','))
             elif x.startswith('loc='): d['loc'] = tuple(x[4:].split(','))
             elif x.startswith('lcall='): d['lcall'] = x[6:]
+            elif x.startswith('convloc='): d['convloc'] = x[8:]
+            elif x.startswith('conv='): d['conv'] = int(x[5:])
+            elif x.startswith('ovf='): d['ovf'] = x[4:]
             elif ':' in x:
                 z, n, f = x.split(':'); d['els'].append(int(z)); d['ns'].append(numf(n)); d['fr'].append(numf(f))
             else: d['extra'].append(x)
@@ -79,6 +87,8 @@ def parse_answer(line, numf):
             if x.startswith('live='): d['live'] = tuple(int(v) for v in x[5:].split(','))
             elif x.startswith('loc='): d['loc'] = tuple(x[4:].split(','))
             elif x.startswith('lcall='): d['lcall'] = x[6:]
+            elif x.startswith('convloc='): d['convloc'] = x[8:]
+            elif x.startswith('conv='): d['conv'] = int(x[5:])
             else: d['extra'].append(x)
         return d
     return dict(kind='other', text=line)
@@ -86,12 +96,16 @@ def parse_answer(line, numf):
 def cnum(s): return unhx(s)
 def mnum(s): return rat(s)
 
+def fl(q):
+    try: return float(q)
+    except OverflowError: return float('inf') if q > 0 else float('-inf')
+
 def num_close(c, m, rel, stats=None):
     """c: float from the library, m: Fraction/NaN from the model or oracle"""
     if isinstance(m, float):
         return math.isnan(m) and not math.isfinite(c)       # model `nan` = non-finite C value
     if not math.isfinite(c): return False
-    mf = float(m)
+    mf = fl(m)
     if c == mf: return True
     ok = abs(c - mf) <= rel * max(abs(c), abs(mf)) + 1e-300
     if ok and stats is not None:
@@ -103,11 +117,15 @@ def agree(line, c, m, stats):
     pc, pm = parse_answer(c, cnum), parse_answer(m, mnum)
     if pc['kind'] != pm['kind'] or pc['extra'] or pm['extra']: return False
     if pc.get('live') != pm.get('live') or pc.get('loc') != pm.get('loc'): return False
+    if pc.get('convloc'): return False          # the model converts every subscript after the switch to the "C" locale
     if pc['kind'] == 'err':
         return pc['msg'] == pm['msg'] and pc.get('code') in ('1', None)
     if pc['kind'] == 'okv': return pc['val'] == pm['val']
     if pc['kind'] == 'ok':
         if pc['n'] != pm['n'] or pc['els'] != pm['els']: return False
+        if pm.get('ovf') == '1':
+            # the model flags a subscript strtod converts to +inf: its exact numbers are not those of the C code, which must be non-finite
+            return any(not math.isfinite(x) for x in pc['ns'])
         exact = line.startswith('parse ') and '.' not in line.split(' ')[2]
         for a, b in zip(pc['ns'], pm['ns']):
             # integer subscripts below 2^53: the double arithmetic is exact, so is the comparison
@@ -194,19 +212,21 @@ class Run:
         return self._chunks(lines, one)
 
     def probe_variant(self):
-        """which of the proposed repairs C07-1/2/3 the working tree contains: observed on three witnesses of the
+        """which of the proposed repairs C07-1..5 the working tree contains: observed on witnesses of the
         library just built (the choice is then validated by the whole correspondence run)"""
-        o = self.run_c(['parse C.utf8 H2O', 'parse C Rf', 'parse C Uu', 'parse C (H)'])
+        o = self.run_c(['parse C.utf8 H2O', 'parse C Rf', 'parse C Uu', 'parse C (H)', 'parse C (H)a', 'parse C H1' + '0' * 309])
         a = [parse_answer(x, cnum) for x in o]
         locale_fix = a[0].get('loc') == ('C.utf8', 'C.utf8')
         weight_fix = a[1]['kind'] == 'err'
         leak_fix = a[2].get('live') == (0, 0) and a[3].get('live') == (4, 0)
-        self.variant = '%d%d%d' % (locale_fix, weight_fix, leak_fix)
+        strict_fix = a[4]['kind'] == 'err'
+        range_fix = a[5]['kind'] == 'err'
+        self.variant = '%d%d%d%d%d' % (locale_fix, weight_fix, leak_fix, strict_fix, range_fix)
         return self.variant
 
     def run_model(self, lines):
         def one(ls):
-            p = subprocess.run([self.model_exe(), self.tables_path, getattr(self, 'variant', '000')], input='\n'.join(ls) + '\n', capture_output=True, text=True)
+            p = subprocess.run([self.model_exe(), self.tables_path, getattr(self, 'variant', '00000')], input='\n'.join(ls) + '\n', capture_output=True, text=True)
             out = p.stdout.splitlines()
             if p.returncode != 0 or len(out) != len(ls):
                 raise BuildError('parser-model failed (%d answers for %d lines): %s' % (len(out), len(ls), p.stderr[-1000:]))
@@ -272,14 +292,24 @@ class Run:
                 else:
                     ms = list(G.mutations(s, bytes_range=[r.randrange(1, 256) for _ in range(6)] + [40, 41, 46, 48, 32, 101, 72]))
                     for m in r.sample(ms, min(len(ms), 600)): out.append(('mutation', m, None))
-        # structural stream: EVERY string over a five-letter alphabet up to length 6 (7 in the thorough tier) — bracket order, empty groups,
-        # leading digits, nested groups: what no single-character edit of a valid formula reaches (e.g. `H)(O`: equal counts, wrong order)
+        # structural stream: EVERY string over the seven-letter alphabet `HO()20.` up to length 5 (6 in the thorough tier) and over
+        # `HO()2` one longer — bracket order, empty groups, leading digits and points, zero subscripts, stray points, nested groups:
+        # what no single-character edit of a valid formula reaches (e.g. `H)(O`: equal counts, wrong order; `.H2O`, `(H).`)
         import itertools
         seen_small = set(m for _, m, _ in out)
-        for n in range(1, (7 if thorough else 6) + 1):
-            for tup in itertools.product('HO()2', repeat=n):
+        for alphabet, nmax in (('HO()20.', 6 if thorough else 5), ('HO()2', 7 if thorough else 6)):
+            for n in range(1, nmax + 1):
+                for tup in itertools.product(alphabet, repeat=n):
+                    b = ''.join(tup).encode()
+                    if b not in seen_small: seen_small.add(b); out.append(('small-alphabet', b, None))
+        # stray lower-case letters (audit clause 15): every string over `H(a)2.` up to length 5 that contains an `a`
+        for n in range(1, 6):
+            for tup in itertools.product('H()a2.', repeat=n):
+                if 'a' not in tup: continue
                 b = ''.join(tup).encode()
-                if b not in seen_small: out.append(('small-alphabet', b, None))
+                if b not in seen_small: seen_small.add(b); out.append(('stray-lower', b, None))
+        # subscripts at the edges of the range of double (audit clauses 2/5): fixed inputs
+        for t in G.RANGE_INPUTS: out.append(('double-range', t.encode(), None))
         # bracket transpositions / rotations of generated formulas (two-character edits that keep the bracket COUNT)
         for fam_, b, f in list(out[:400]):
             if fam_ != 'grammar' or b.count(b'(') == 0: continue
@@ -363,8 +393,53 @@ def load_known():
 # ------------------------------------------------------------------------------------------------
 # violation search: specification oracle vs the real library
 
-def judge(line, c, e, stats=None):
+def clean(t):
+    """what the scanner of the UNREPAIRED CompoundParserSimple makes of a balanced string over the formula alphabet: at every level
+    the items it consumes — an upper-case letter with one lower-case letter (when the character after that is not lower case) and the
+    run of [0-9.] directly behind it; a bracket pair (cleaned recursively) and the run of [0-9.] directly behind it — in order, with
+    every other character at that level (the skipped ones) removed.  None when the shape is one the library rejects anyway.
+    Used only to decide whether an accepted non-formula shows exactly the behaviour of the known site K_STRICT."""
+    out = []; i = 0; n = len(t)
+    low = lambda ch: 'a' <= ch <= 'z'
+    sub = lambda ch: ch in '0123456789.'
+    while i < n:
+        ch = t[i]
+        if ch == '(':
+            d = 1; j = i + 1
+            while j < n and d > 0:
+                d += (t[j] == '(') - (t[j] == ')'); j += 1
+            if d: return None
+            inner = clean(t[i + 1:j - 1])
+            if inner is None: return None
+            k = j
+            while k < n and sub(t[k]): k += 1
+            out.append('(' + inner + ')' + t[j:k]); i = k
+        elif 'A' <= ch <= 'Z':
+            j = i + 1
+            if j < n and low(t[j]):
+                if j + 1 < n and low(t[j + 1]): return None
+                j += 1
+            k = j
+            while k < n and sub(t[k]): k += 1
+            out.append(t[i:k]); i = k
+        elif ch == ')': return None
+        else: i += 1
+    return ''.join(out)
+
+def compare_composition(pc, pe, stats=None):
+    """library result `pc` against an expected composition `pe`: list of differences"""
+    out = []
+    if pc['els'] != pe['els']: return ['elements %s, expected %s' % (pc['els'], pe['els'])]
+    if any(a >= b for a, b in zip(pc['els'], pc['els'][1:])): out.append('elements not strictly ascending')
+    for name, a, b in [('nAtoms', pc['ns'], pe['ns']), ('massFractions', pc['fr'], pe['fr']), ('nAtomsAll', [pc['all']], [pe['all']]), ('molarMass', [pc['mm']], [pe['mm']])]:
+        for x, y in zip(a, b):
+            if not num_close(x, y, 1e-12, stats): out.append('%s %r, expected %s' % (name, x, fl(y))); break
+    if not (abs(sum(pc['fr']) - 1) <= 1e-12 and all(x > 0 for x in pc['fr'])): out.append('mass fractions not positive / not summing to 1')
+    return out
+
+def judge(line, c, e, stats=None, e_clean=None):
     """one `parse` line: library answer `c` against the oracle's expectation `e`.
+    `e_clean`: the oracle's expectation for clean(<the string>) when `e` is `reject not-a-formula` and the library accepted.
     -> list of (site-or-None, what): property failures on this input; site = known-finding key candidate"""
     pc = parse_answer(c, cnum); out = []
     loc = pc.get('loc')
@@ -374,31 +449,50 @@ def judge(line, c, e, stats=None):
         out.append((K_LOCALE, 'LC_NUMERIC %s before the call, %s after' % loc))
     if pc.get('lcall') == '1':
         out.append((None, 'the process locale (setlocale(LC_ALL, NULL)) is not what it was before the call: a category other than LC_NUMERIC was changed and not restored'))
+    if pc.get('convloc'):
+        out.append((None, 'the parser converted a subscript (strtod) while LC_NUMERIC was %s: the switch to the "C" locale is missing or too late' % G.unesc(pc['convloc']).decode('latin1')))
     if pc['extra']: out.append((None, 'result and error both set'))
     t = e.split(' ')
     if t[1] == 'ok':
         pe = parse_answer(' '.join(t[1:]), mnum)
         if pc['kind'] != 'ok': return out + [(None, 'well-formed formula rejected: ' + G.unesc(pc.get('msg', '')).decode('latin1'))]
-        if pc['els'] != pe['els']: return out + [(None, 'elements %s, expected %s' % (pc['els'], pe['els']))]
-        if any(a >= b for a, b in zip(pc['els'], pc['els'][1:])): out.append((None, 'elements not strictly ascending'))
-        for name, a, b in [('nAtoms', pc['ns'], pe['ns']), ('massFractions', pc['fr'], pe['fr']), ('nAtomsAll', [pc['all']], [pe['all']]), ('molarMass', [pc['mm']], [pe['mm']])]:
-            for x, y in zip(a, b):
-                if not num_close(x, y, 1e-12, stats): out.append((None, '%s %r, expected %s' % (name, x, float(y)))); break
-        if not (abs(sum(pc['fr']) - 1) <= 1e-12 and all(x > 0 for x in pc['fr'])): out.append((None, 'mass fractions not positive / not summing to 1'))
+        out += [(None, w) for w in compare_composition(pc, pe, stats)]
         lead = int(t[-1].split('=')[1]) if t[-1].startswith('lead=') else 0
         if pc['live'][1] != 0:
             out.append((K_LEAK_GRP if lead == pc['live'][1] else None, '%d block(s) still allocated after FreeCompoundData' % pc['live'][1]))
     elif t[1] == 'reject':
+        lead = int(t[-1].split('=')[1]) if t[-1].startswith('lead=') else None
         if pc['kind'] == 'ok':
-            out.append((K_WEIGHT if t[2] == 'no-atomic-weight' else None, 'accepted (%s): fractions %s molarMass %r' % (t[2], pc['fr'], pc['mm'])))
-            if t[2] == 'no-atomic-weight' and pc['live'][1] != 0 and not t[-1] == 'lead=%d' % pc['live'][1]:
+            site = None; what = 'accepted (%s): elements %s nAtoms %s fractions %s molarMass %r' % (t[2], pc['els'], pc['ns'], pc['fr'], pc['mm'])
+            if t[2] == 'no-atomic-weight': site = K_WEIGHT
+            elif t[2] == 'not-a-formula':
+                # the known site: characters that belong to no item are skipped.  Only when the result is exactly the composition
+                # of the string with those characters removed (and that string is a formula the property accepts)
+                if e_clean is not None and e_clean.startswith('expect ok'):
+                    pe = parse_answer(' '.join(e_clean.split(' ')[1:]), mnum)
+                    if not compare_composition(pc, pe):
+                        site = K_STRICT; lead = int(e_clean.split(' ')[-1].split('=')[1])
+                        what = 'accepted although it is not a formula of the grammar: part of the text is ignored, the result is the composition of the remaining text'
+            elif t[2] == 'subscript-overflow':
+                # the known site: strtod's +inf is not noticed.  Only when exactly the formula's elements come back with a non-finite count
+                els = [int(x) for x in [y for y in t if y.startswith('els=')][0][4:].split(',') if x]
+                if pc['els'] == els and any(math.isinf(x) for x in pc['ns']) and all(x > 0 for x in pc['ns']):
+                    site = K_RANGE; what = 'accepted with a subscript a double cannot hold: nAtoms %s, nAtomsAll %r, fractions %s, no error' % (pc['ns'], pc['all'], pc['fr'])
+            out.append((site, what))
+            if pc['live'][1] != 0 and not (lead is not None and lead == pc['live'][1]):
                 out.append((None, 'blocks still allocated after FreeCompoundData'))
+            elif pc['live'][1] != 0:
+                out.append((K_LEAK_GRP, '%d block(s) still allocated after FreeCompoundData' % pc['live'][1]))
         elif pc['kind'] == 'err':
             if pc.get('code') != '1' or not pc['msg']: out.append((None, 'rejected without exactly one error'))
             if pc['live'][0] != 0: out.append((K_LEAK_ERR, '%d block(s) leaked on the error return' % pc['live'][0]))
-    else:   # no claim about acceptance; global state still must be left as found
-        if pc['kind'] == 'err' and pc['live'][0] != 0: out.append((K_LEAK_ERR, '%d block(s) leaked on the error return' % pc['live'][0]))
+    else:   # (no such verdict any more: the oracle judges every string)
+        out.append((None, 'the oracle gave no verdict: ' + e[:80]))
     return out
+
+def needs_clean(c, e):
+    """accepted by the library although the oracle says `reject not-a-formula`: the second question (what is left of the string) is due"""
+    return e.startswith('expect reject not-a-formula') and c.startswith('ok ')
 
 # ------------------------------------------------------------------------------------------------
 
@@ -457,8 +551,8 @@ class C07:
             if p.returncode != 0: rep['problems'].append('leanchecker rejected %s: %s' % (MODULE, (p.stdout + p.stderr)[-400:]))
             else: ctx.notes.append('leanchecker re-checked %s' % MODULE)
         variant = R.probe_variant()
-        if variant != '000':
-            ctx.notes.append('working tree contains proposed repairs (localeFix, weightFix, leakFix) = %s; the model runs with the same switches' % variant)
+        if variant != '00000':
+            ctx.notes.append('working tree contains proposed repairs (localeFix, weightFix, leakFix, strictFix, rangeFix) = %s; the model runs with the same switches' % variant)
         # table precondition of the bsearch contract, executed by the compiled model
         if R.run_model(['tablesok']) != ['true']:
             rep['tie_broken'].append('tablesOK false: MendelArraySorted is not strictly sorted by strcmp / not a permutation of MendelArray (bsearch contract unmet)')
@@ -472,9 +566,12 @@ class C07:
             corpus = R.corpus()
             lines = list(corpus); fam = ['corpus'] * len(corpus)
             for i, (f, b, meta) in enumerate(inputs):
-                locname = 'C.utf8' if (i % 7 == 3 or f == 'symbol') else 'C'
+                # the malformed streams run under C.utf8 (every failure path with a locale to restore) AND under C (below)
+                locname = 'C.utf8' if (i % 7 == 3 or f in ('symbol', 'mutation', 'stray-lower', 'double-range', 'bracket-swap')) else 'C'
                 lines.append('parse %s %s' % (locname, G.esc(b))); fam.append(f)
             ncorp = len(corpus)
+            for f, b, meta in inputs:
+                if f in ('mutation', 'double-range'): lines.append('parse C %s' % G.esc(b)); fam.append(f + '@C')
             other = R.other_lines()
             lines += other; fam += [l.split(' ')[0] for l in other]
         ctx.tick('generate', t)
@@ -497,16 +594,23 @@ class C07:
         t = time.time()
         pidx = [i for i, l in enumerate(lines) if l.startswith('parse ')]
         s_out = R.run_model(['spec ' + lines[i].split(' ')[2] for i in pidx])
+        e_clean = self.clean_expectations(R, [lines[i] for i in pidx], [c_out[i] for i in pidx], s_out)
         viol = []         # (line, site, what)
         sstats = {}
         expect_kinds = {}
         nontriv = set()
+        conv_calls = 0; conv_lines = 0
         for i, e in zip(pidx, s_out):
             k = ' '.join(e.split(' ')[1:3]) if not e.startswith('expect ok') else 'ok'
             expect_kinds[k] = expect_kinds.get(k, 0) + 1
             if k == 'ok': nontriv.add(lines[i].split(' ')[2])
-            for site, what in judge(lines[i], c_out[i], e, sstats):
+            for site, what in judge(lines[i], c_out[i], e, sstats, e_clean.get(lines[i])):
                 viol.append((lines[i], site, what, c_out[i], e))
+            m = re.search(r' conv=(\d+)', c_out[i])
+            if m:
+                conv_lines += 1; conv_calls += int(m.group(1))
+        if pidx and not replay and conv_calls == 0:
+            rep['tie_broken'].append('the strtod observer of harness/c07drv.c saw no conversion on %d parse lines: the locale in force at the conversions is not observed' % len(pidx))
         # rewrite invariance on the real library (reorder / expand group)
         n_rw = 0
         if not replay:
@@ -581,12 +685,15 @@ class C07:
                    evaluations=len(lines) + len(pidx) + n_rw + n_add,
                    distinct_nontrivial=len(nontriv),
                    rule='inputs: all %d symbols, all ordered pairs, grammar-generated formulas (depth<=5, length<=120, integer and fractional subscripts) with a reordered and a group-expanded rewrite each, '
-                        'every single-byte deletion/substitution/insertion (bytes 1..255) of the seed set (thorough: all seeds; quick: %s in full + a seeded sample of the others), '
+                        'every single-byte deletion/substitution/insertion (bytes 1..255) of the seed set (thorough: all seeds; quick: %s in full + a seeded sample of the others), each under LC_ALL=C.utf8 and under C, '
+                        'every string over `HO()20.` up to length 5 (thorough 6) and over `HO()2` up to 6 (7), every string over `H()a2.` up to length 5 with a stray lower-case letter, '
+                        '12 fixed subscripts at the edges of the range of double (309..400 digits, 300..400 zeros after the point), '
                         'add_compound_data on random compositions, AtomicNumberToSymbol for Z in [-3,125], SymbolToAtomicNumber on symbols and variants. '
                         'non-trivial = distinct input strings for which the specification oracle expects a composition (a well-formed formula all of whose elements have weights)' % (len(R.syms), QUICK_FULL_SEEDS),
                    samples=[dict(line=lines[i], impl=c_out[i][:300], model=m_out[i][:300]) for i in smp_idx],
                    max_rel_dev_model_vs_impl=stats.get('max_rel_dev', 0.0), max_rel_dev_oracle_vs_impl=sstats.get('max_rel_dev', 0.0),
-                   distribution=dist, c_coverage_xraylib_parser_c=cov_c, tables_sha=R.tables_sha, model_variant=dict(localeFix=variant[0] == '1', weightFix=variant[1] == '1', leakFix=variant[2] == '1'), mutation_seeds=getattr(R, 'mut_seeds', []),
+                   distribution=dist, c_coverage_xraylib_parser_c=cov_c, tables_sha=R.tables_sha, model_variant=dict(localeFix=variant[0] == '1', weightFix=variant[1] == '1', leakFix=variant[2] == '1', strictFix=variant[3] == '1', rangeFix=variant[4] == '1'),
+                   strtod_observer=dict(parse_lines_observed=conv_lines, strtod_calls_seen=conv_calls, calls_outside_C_locale=sum(1 for v in viol if 'converted a subscript' in v[2])), mutation_seeds=getattr(R, 'mut_seeds', []),
                    provenance=dict(parser_c=_sha(os.path.join(REPO, 'src', 'xraylib-parser.c')), repo=REPO),
                    broken=rep)
         core.write_evidence(ctx, 'proof', cov, len(new) + (1 if broken and not new else 0), ASSUMPTIONS)
@@ -594,6 +701,20 @@ class C07:
             ID, R.tier, exit_code, time.time() - ctx.t0, n_dis, len(theorems), len(lines), len(mism), len(pidx) + n_rw + n_add, len(new),
             {k[:24]: h['n'] for k, h in hits.items()}))
         return exit_code
+
+    def clean_expectations(self, R, plines, couts, souts):
+        """for the lines the library accepts although the oracle says `not-a-formula`: the oracle's verdict on clean(string)"""
+        todo = {}
+        for l, c, e in zip(plines, couts, souts):
+            if needs_clean(c, e):
+                try: t = G.unesc(l.split(' ')[2]).decode('ascii')
+                except UnicodeDecodeError: continue
+                k = clean(t)
+                if k and k != t: todo[l] = k
+        if not todo: return {}
+        ks = sorted(set(todo.values()))
+        ans = dict(zip(ks, R.run_model(['spec ' + G.esc(k.encode()) for k in ks])))
+        return {l: ans[k] for l, k in todo.items()}
 
     # ---- shrink a violating parse line -------------------------------------------------------------
     def shrink(self, R, v):
@@ -605,9 +726,10 @@ class C07:
         def bad(cands):
             ls = ['parse %s %s' % (locname, G.esc(b)) for b in cands]
             co = R.run_c(ls); so = R.run_model(['spec ' + G.esc(b) for b in cands])
+            ec = self.clean_expectations(R, ls, co, so)
             res = []
             for l, c, e in zip(ls, co, so):
-                js = [j for j in judge(l, c, e) if not (j[0] in known)]
+                js = [j for j in judge(l, c, e, None, ec.get(l)) if not (j[0] in known)]
                 res.append((l, js[0][0], js[0][1], c, e) if js else None)
             return res
         for _ in range(40):
@@ -689,13 +811,14 @@ TRUSTED = [
     'axioms allowed in property theorems: propext, Classical.choice, Quot.sound (audited by #print axioms on every run)',
     'hand model lean-parser/XrlParser/Hand/Parser.lean of src/xraylib-parser.c: trusted as far as the correspondence run exercises it (every run: all symbols, all ordered pairs, generated formulas and their rewrites, byte-level mutations; result fields, error text, live heap blocks, LC_NUMERIC before/after)',
     'libc by contract: bsearch/qsort (sorted array, distinct keys; precondition for MendelArraySorted executed on every run, for the atom array proved), strtod on [0-9.]* in the C locale as the exact decimal, isupper/islower/isdigit on bytes in the C locale, setlocale per POSIX (returns the locale set)',
-    'IEEE-754 rounding of the C arithmetic is not modelled (theorems are over exact rationals); absorbed by the 1e-13 relative tolerance of the comparison; subscripts longer than ~300 digits (overflow/underflow of double) are outside the quantifier (length <= 120)',
+    'IEEE-754 rounding of the C arithmetic is not modelled (theorems are over exact rationals); absorbed by the 1e-13 relative tolerance of the comparison.  The range of double is modelled at the conversion of a subscript only (lean-parser/XrlParser/Core/Double.lean: strtod gives +inf from 2^1024 - 2^970 on and 0.0 up to 2^-1075; correct rounding of glibc strtod trusted, exercised by fixed inputs on both sides of the upper edge)',
     'Mathlib (module-wise, proofs only)',
     'allocation counter (-Wl,--wrap) and ASan/UBSan: observers of the correspondence run only',
 ]
 ASSUMPTIONS = [
     'element table and atomic weights are parameters of every theorem; the run instantiates them with MendelArray/MendelArraySorted/AtomicWeight_arr read from the library built from the working tree',
-    'LC_CTYPE is the C locale (the harness changes LC_NUMERIC only)',
+    'the harness sets the whole process locale (LC_ALL, then LC_NUMERIC) to the locale named on the line before each call; only `C` and `C.utf8` are installed, both classify bytes as the C locale does (isupper/islower/isdigit on ASCII) and both use `.` as radix character: that the parser switches LC_NUMERIC to "C" BEFORE its strtod calls is observed directly (a --wrap=strtod observer records the locale in force at each call), not through a wrong conversion',
+    'a subscript a double cannot hold (>= 2^1024 - 2^970, or positive and <= 2^-1075) must be rejected: the counts of the result are doubles.  Subnormal subscripts (< 2^-1022) and overflow/underflow of the arithmetic on the counts (products of group multipliers, sums) are outside the model; they cannot occur within the quantifier of the property (length <= 120)',
 ]
 
 CHECK = C07()
